@@ -38,6 +38,10 @@ REGEX_SAMPLES = {
 REGEXES = sorted(REGEX_SAMPLES)
 ASSERT_REGEXES = ["^foo", "foo3$", "bar$", "\\bfoo\\b", "foo\\z", "\\Aa", "^$", "\\Bx?", "(?m:^)ab", "a$", "^", "$", "\\bb", "o\\b", "(?m:a$)", "^a*$", "\\Bb"]
 CAPTURE_REGEXES = ["(?P<v>a\\n?b)", "(?P<v>[^ ]+)", "(?P<v>.\\n.)", "(?P<v>[a-z])", "(?P<v>[a-z]+)[0-9]", "(?P<v>a|b)", "(?P<v>a)?b", "(?P<v>fo+)", "x(?P<v>.)", "(?P<v>[0-9]+)"]
+# two captures in one expression, and uses of two or three variables (also the same one twice) in one element
+CAPTURE2_REGEXES = ["(?P<u>[a-z]+)=(?P<t>[0-9]+)", "(?P<u>..);(?P<t>.)", "(?P<u>a|b)(?P<t>[0-9]*)", "(?P<u>fo+)(?P<t>[0-9]?)"]
+VAR2_USES = [(":", [(0, "u"), (1, "t")]), ("", [(0, "t"), (0, "u")]), ("x-", [(1, "u"), (2, "u")]), ("=;", [(0, "u"), (1, "t"), (2, "u")]),
+             (" ", [(0, "t"), (1, "t")]), ("[0-9]", [(0, "u"), (5, "t")])]
 VAR_USES = [("", 0), ("x", 1), (" ", 0), ("[0-9]", 0), ("a", 0), ("$", 0), ("+", 0)]   # (regex with the use removed, position)
 
 
@@ -76,14 +80,24 @@ def gen_case(rng, idx, allow_assert, allow_vars):
     if allow_assert and rng.random() < 0.35:
         pool.append(rng.choice(ASSERT_REGEXES))
     uses_vars = allow_vars and rng.random() < 0.2
+    two_vars = uses_vars and rng.random() < 0.4
+    big = rng.random() < 0.03          # index data section larger than the reader's buffer, streams skipped by a port filter
     vocab = [w for r in pool for w in REGEX_SAMPLES.get(r, [])] * 3 + WORDS
+    if two_vars:
+        vocab = vocab + ["ab=12", "foo=3", "xy;z", "a7", "b", "ab:12", "12ab", "x-abab", "foo3", "ab=12;ab", "3 3", "ab", "12"] * 2
     streams = []
-    for _ in range(rng.choice([1, 2, 3, 4])):
+    for _ in range(rng.choice([4, 5, 6]) if big else rng.choice([1, 2, 3, 4])):
         raw = [c for c in gen_payload(rng, rng.choice([0, 1, 1, 2, 3, 4, 5]), vocab) if c[1]]
         convs = []
         for _ in range(nconv):
             convs.append(gen_payload(rng, rng.choice([0, 1, 2, 3, 4]), vocab) if rng.random() < 0.6 else None)
-        streams.append({"raw": raw, "conv": convs})
+        st = {"raw": raw, "conv": convs}
+        if big:
+            st["sport"] = rng.choice([80, 80, 81])
+            if rng.random() < 0.7:
+                pad = rng.choice(["\x01", "z", "."]) * rng.choice([2500, 3000, 4090, 4096, 4100, 5000, 8190, 8200])
+                st["raw"] = [[rng.randrange(2), pad]] + raw if rng.random() < 0.5 else raw + [[rng.randrange(2), pad]]
+        streams.append(st)
 
     keys = []   # over all conjunctions: the normaliser also absorbs across the disjunction
 
@@ -95,10 +109,16 @@ def gen_case(rng, idx, allow_assert, allow_vars):
             have_v = False
             for k in range(n):
                 d = rng.randrange(2)
-                if uses_vars and not have_v and k < n - 1 and rng.random() < 0.6:
+                if uses_vars and two_vars and not have_v and k < n - 1 and rng.random() < 0.7:
+                    elems.append({"d": d, "re": rng.choice(CAPTURE2_REGEXES), "vars": []})
+                    have_v = True
+                elif uses_vars and two_vars and have_v and rng.random() < 0.7:
+                    rest, uses = rng.choice(VAR2_USES)
+                    elems.append({"d": d, "re": rest, "vars": [{"pos": pos, "name": nm} for pos, nm in uses]})
+                elif uses_vars and not two_vars and not have_v and k < n - 1 and rng.random() < 0.6:
                     elems.append({"d": d, "re": rng.choice(CAPTURE_REGEXES), "vars": []})
                     have_v = True
-                elif uses_vars and have_v and rng.random() < 0.6:
+                elif uses_vars and not two_vars and have_v and rng.random() < 0.6:
                     rest, pos = rng.choice(VAR_USES)
                     elems.append({"d": d, "re": rest, "vars": [{"pos": pos, "name": "v"}]})
                 else:
@@ -115,12 +135,15 @@ def gen_case(rng, idx, allow_assert, allow_vars):
         c2 = conj()
         if c2:
             ors.append(c2)
-    return {"nconv": nconv, "conv": conv, "streams": streams, "or": ors}
+    case = {"nconv": nconv, "conv": conv, "streams": streams, "or": ors}
+    if big:
+        case["sport"] = 80
+    return case
 
 
 def to_wire(case, cid):
-    return {"id": cid, "nconv": case["nconv"], "conv": case["conv"],
-            "streams": [{"raw": [{"d": d, "x": hx(x)} for d, x in s["raw"]],
+    return {"id": cid, "nconv": case["nconv"], "conv": case["conv"], "sport": case.get("sport", 0),
+            "streams": [{"sport": s.get("sport", 0), "raw": [{"d": d, "x": hx(x)} for d, x in s["raw"]],
                          "conv": [None if c is None else [{"d": d, "x": hx(x)} for d, x in c] for c in s["conv"]]} for s in case["streams"]],
             "or": case["or"]}
 
@@ -217,7 +240,9 @@ def execute(cases, exe, tag, with_model=True):
         with open(mcf, "w") as f:
             for i, c in enumerate(cases):
                 o = impl.get(i)
-                if o is None:
+                # the multi-KiB regime is about the index reader (not modelled; the model's list-indexed matcher is cubic in the
+                # payload length): those cases are compared SearchStreams vs plain scan only
+                if o is None or c.get("sport"):
                     continue
                 t = model_text(c, i, o.get("progs") or {}, o.get("subs"))
                 if t:
@@ -249,8 +274,17 @@ def canon(s):
     return "ERR other: " + s[:80]
 
 
+def port_filter(case, m):
+    """the model knows data conditions only: apply the case's sport filter to the ids it selects"""
+    if m is None or not case.get("sport") or not (m == "OK" or m.startswith("OK ")):
+        return m
+    keep = [i for i in m[2:].strip().split(",") if i and (case["streams"][int(i)].get("sport", 0) or 80) == case["sport"]]
+    return "OK " + ",".join(keep)
+
+
 def judge(case, o, m):
     """None | ('impl'|'corr', text)"""
+    m = port_filter(case, m)
     if o is None:
         return ("corr", "no harness output")
     i, n = canon(o["impl"]), canon(o["naive"])
